@@ -585,7 +585,11 @@ def replay(path):
     sw, md = render(mode, ops)
     impl = vlib.run_lines(build_impl(), [sw])[0]
     try:
-        mexe = build_model()
+        try:
+            mexe = build_model()
+        except vlib.BuildError:
+            vlib.coq_property("C06")      # no extracted model for this tree yet: build it (translator + Coq + extraction)
+            mexe = build_model()
         model = vlib.run_lines(mexe, [md])[0]
         # the model of the code as found (without fixes/C06-1.patch), for comparison
         model_u = vlib.run_lines(mexe, [md[0] + "u" + md[1:]])[0]
